@@ -63,6 +63,13 @@ type recConn struct {
 	// not closed itself although a frame is half out (partial header or payload, or a payload that failed with n = 0
 	// after its header) then sends the next frames into a stream that has lost frame synchronisation
 	cutErr string
+	// rdFailAt >= 0: the Read that would start at this offset of the INCOMING stream returns
+	// (0, os.ErrDeadlineExceeded) once — a net.Error with Timeout(), an expired read deadline — and the trunk carries
+	// on afterwards; reads before it never cross the offset.  -1: never.
+	rdFailAt int
+	rdCount  int
+	rdFailed bool
+	rdMu     sync.Mutex
 	// framing of what went out so far (the wrapper has to know whether a failure falls between two frames)
 	hdr  []byte // bytes of an incomplete frame header
 	need int    // payload bytes of the current frame still to come
@@ -102,7 +109,7 @@ func (r *recConn) midFrame() bool { return r.need > 0 || len(r.hdr) > 0 }
 func newRec(c net.Conn, budget int) *recConn { return newRecErr(c, budget, "") }
 
 func newRecErr(c net.Conn, budget int, cutErr string) *recConn {
-	r := &recConn{Conn: c, budget: budget, keep: true, closedC: make(chan struct{}), bigC: make(chan struct{}), cutErr: cutErr}
+	r := &recConn{Conn: c, budget: budget, keep: true, closedC: make(chan struct{}), bigC: make(chan struct{}), cutErr: cutErr, rdFailAt: -1}
 	if budget == 0 && cutErr == "" {
 		// nothing may be written at all: the outgoing direction is already down
 		r.broken = true
@@ -190,7 +197,22 @@ func (r *recConn) record(p []byte) {
 }
 
 func (r *recConn) Read(p []byte) (int, error) {
+	r.rdMu.Lock()
+	if r.rdFailAt >= 0 && !r.rdFailed {
+		if r.rdCount == r.rdFailAt && len(p) > 0 {
+			r.rdFailed = true
+			r.rdMu.Unlock()
+			return 0, os.ErrDeadlineExceeded
+		}
+		if left := r.rdFailAt - r.rdCount; len(p) > left {
+			p = p[:left]
+		}
+	}
+	r.rdMu.Unlock()
 	n, err := r.Conn.Read(p)
+	r.rdMu.Lock()
+	r.rdCount += n
+	r.rdMu.Unlock()
 	if err == io.ErrClosedPipe {
 		err = net.ErrClosed
 	}
